@@ -73,11 +73,24 @@ def judge(r, sql):
                 # a consequence of the unresolved subquery form already reported above (its correlated
                 # column is no input of the plan under `in` / `exists`), not a finding of its own
                 return out
-            if has_subquery(sql):
-                # the subquery WAS unnested and a column reference broke on the way: its own class
-                site += ":unnested-subquery"
+            # where the plan refers to a column its input does not produce (located by the harness's own
+            # walker; the verdict itself is the real executor's panic)
+            site += "@" + unresolved_class(r.get("unresolved") or [])
         out.append((f"executor-panics:{site}", f"{sql[:220]}: {msg} plan {r.get('plan', '')[:160]}"))
     return out
+
+
+def unresolved_class(labels):
+    """labels: `<operator>:<role>:via-ref|direct[:over-empty]`.
+    via-ref    - the column sits inside a `ref` that is evaluated inline because the plan that produced it is gone
+    over-empty - the operator sits above an `empty` plan (all alternatives cost 0, an ill-formed one is extracted)
+    otherwise the first place where a column is referred to directly: `<operator>:<role>:direct`"""
+    if not labels:
+        return "unlocated"
+    if any(x.endswith(":over-empty") for x in labels):
+        return "over-empty"
+    direct = [x for x in labels if x.endswith(":direct")]
+    return direct[0] if direct else "via-ref"
 
 
 def has_subquery(sql):
